@@ -7,7 +7,8 @@
           of LayerRule's own, the public words are explored as transformers of (own state, side flag) and the guard must agree with
           the side of the wrapped rule in every reachable state
   C16.R3  builder guards dominate the state writes; the duplicate-module check compares the whole normalised argument against the
-          materialised identifiers of all stored modules; the 'pending' test agrees with the stored values; architecture guards
+          materialised identifiers of all stored modules (whatever key is compared - names, key tuples, filter objects - must be equal,
+          under abstract dataclass / __eq__ equality, for a stored filter of *every* stored class with the supplied name); the 'pending' test agrees with the stored values; architecture guards
   C16.R4  accepted definitions are stored faithfully (whole list, in order, under the single pending layer) and read back unchanged
 
 All anchors are public API names (`LayeredArchitecture.layer/containing_modules/have_modules_with_names_matching/__getitem__/__str__`,
@@ -24,7 +25,7 @@ from core.report import Result
 
 from .c16_logic import Enc, equivalent, facts, implies, mentions, satisfiable, strip_wrappers
 from .c16_r1 import RawFlow, seeds
-from .c16_sym import NONE_T, SELF, Event, Run, SymExec, Term, phi_leaves, show, show_pc, subterms
+from .c16_sym import NONE_T, SELF, Event, Run, SymExec, Term, is_term, phi_leaves, show, show_pc, subterms
 from .common import types_of
 
 CONFIG_ERROR = "ImproperlyConfigured"
@@ -255,9 +256,151 @@ class Builder:
         if ifs1 or ifs2:
             return ("partial", f"entries are filtered by `{show((ifs1 + ifs2)[0])[:60]}`")
         b2 = ("bv", b1[1] + 1)
-        if not (core[2][0] == "attr" and core[2][1] == b2 and core[2][2] in self.name_attrs):
-            return ("partial", f"it collects `{show(core[2])[:60]}`, not the module name of each stored filter")
-        return ("all", materialised)
+        if not mentions(core[2], b2):
+            return ("partial", f"it collects `{show(core[2])[:60]}`, which does not depend on the stored filter")
+        return ("all", materialised, core[2], b2)  # what is collected per stored filter is judged by key_agreement()
+
+    # -- abstract equality of the keys a duplicate check compares
+    M = ("sym", "m")
+
+    def reduce(self, t, env: dict):
+        """t with bound variables replaced (env) and attribute reads on constructed values evaluated (fields, properties)."""
+        if not isinstance(t, tuple):
+            return t
+        if is_term(t) and t in env:
+            return env[t]
+        if is_term(t) and t[0] == "attr":
+            x = self.reduce(t[1], env)
+            if x[0] == "new":
+                for k, v in x[3]:
+                    if k == t[2]:
+                        return v
+                ci = self.repo.classes.get(x[1])
+                m = self.repo.lookup_method(ci, t[2]) if ci else None
+                if m is not None and m.is_property and not m.is_abstract:
+                    r = self.sx.run(m, self_term=x)
+                    if len(r.returns) == 1 and not r.of("opaque"):
+                        return self.reduce(r.returns[0][1], {})
+            return ("attr", x, t[2])
+        return tuple(self.reduce(c, env) for c in t)
+
+    def tv(self, t: Term):
+        """Three-valued truth of a reduced term: True / False / None (unknown)."""
+        op = t[0]
+        if op == "const":
+            return bool(t[1])
+        if op == "builtin" and t[1] == "NotImplemented":
+            return False  # python falls back to identity, and the compared objects are distinct
+        if op == "not":
+            v = self.tv(t[1])
+            return None if v is None else not v
+        if op in ("and", "or"):
+            vs = [self.tv(x) for x in t[1]]
+            if op == "and":
+                return False if False in vs else (None if None in vs else True)
+            return True if True in vs else (None if None in vs else False)
+        if op == "phi":
+            c = self.tv(t[1])
+            return None if c is None else self.tv(t[2] if c else t[3])
+        if op == "isinstance" and t[1][0] == "new":
+            ci = self.repo.classes.get(t[1][1])
+            names = {c.name for c in self.repo.mro(ci)} if ci else set()
+            return bool(names & set(t[2])) if ci else None
+        if op == "cmp" and t[1] == "Eq":
+            return self.abstract_eq(t[2], t[3])
+        if op == "cmp" and t[1] == "Is":
+            a, c = t[2], t[3]
+            if a[0] == "call" and a[1] == "type" and c[0] == "call" and c[1] == "type" and a[2][0][0] == "new" and c[2][0][0] == "new":
+                return a[2][0][1] == c[2][0][1]
+            if a[0] == "const" and c[0] == "const":
+                return a[1] is c[1]
+            if (a[0] == "new") != (c[0] == "new") and "const" in (a[0], c[0]):
+                return False
+        return None
+
+    def abstract_eq(self, a: Term, c: Term):
+        """`a == c` for reduced key terms: True / False / None."""
+        if a[0] == "new" and c[0] == "new":
+            for x, y in ((a, c), (c, a)):
+                ci = self.repo.classes.get(x[1])
+                eq = self.repo.lookup_method(ci, "__eq__") if ci else None
+                if eq is not None and not eq.is_abstract:
+                    r = self.sx.run(eq, self_term=x, args={eq.param_names[1]: y})
+                    if r.of("opaque") or r.notes:
+                        return None
+                    for pc, v, _h in r.returns:
+                        conds = [self.tv(self.reduce(t, {})) for t, _pol in pc]
+                        if all(cv is not None and cv == pol for cv, (_t, pol) in zip(conds, pc)):
+                            return self.tv(self.reduce(v, {}))
+                    return None
+            ca, cc = self.repo.classes.get(a[1]), self.repo.classes.get(c[1])
+            if ca is None or cc is None:
+                return None
+            if not (any(k.is_dataclass for k in self.repo.mro(ca)) and any(k.is_dataclass for k in self.repo.mro(cc))):
+                return False  # plain objects compare by identity
+            if a[1] != c[1]:
+                return False  # dataclass equality includes the class
+            fa, fc = dict(a[3]), dict(c[3])
+            if set(fa) != set(fc):
+                return None
+            vs = [self.abstract_eq(fa[k], fc[k]) for k in fa]
+            return False if False in vs else (None if None in vs else True)
+        if a == c:
+            return True
+        if a[0] == "const" and c[0] == "const":
+            return a[1] == c[1]
+        if a[0] in ("tuple", "list") and c[0] == a[0]:
+            if len(a[1]) != len(c[1]):
+                return False
+            vs = [self.abstract_eq(x, y) for x, y in zip(a[1], c[1])]
+            return False if False in vs else (None if None in vs else True)
+        kinds = {a[0], c[0]}
+        if "new" in kinds and kinds & {"const", "sym", "tuple", "list"}:
+            return False
+        if kinds == {"const", "tuple"} or kinds == {"const", "list"} or kinds == {"tuple", "list"}:
+            return False
+        return None
+
+    def stored_filter_classes(self) -> list[str]:
+        out: list[str] = []
+        for n in ("containing_modules", "have_modules_with_names_matching"):
+            for e in self.store_events(self.run(n)):
+                for x in subterms(e.data["value"]):
+                    if x[0] == "new" and x[1] not in out:
+                        out.append(x[1])
+        return out
+
+    def filter_named(self, cls_fq: str) -> Term | None:
+        """A stored filter of class cls_fq whose identifier is the symbolic name M."""
+        ci = self.repo.classes.get(cls_fq)
+        if ci is None:
+            return None
+        ident = sorted(a for a in self.name_attrs if any(a in c.methods and c.methods[a].is_abstract for c in self.repo.classes.values())) or sorted(self.name_attrs)
+        fields = [n for c in reversed(self.repo.mro(ci)) for n in c.ann_attrs]
+        for f in fields:
+            obj = ("new", cls_fq, (), tuple(sorted((g, self.M if g == f else ("sym", g)) for g in fields)))
+            if self.reduce(("attr", obj, ident[0]), {}) == self.M:
+                return obj
+        return None
+
+    def key_agreement(self, new_key: Term, elt: Term, bv: Term):
+        """('ok', '') when the key of a supplied module equals the key collected from every stored filter (of any stored class) with
+        the same identifier; ('bad', why) with the class that is missed; ('unknown', why)."""
+        classes = self.stored_filter_classes()
+        if not classes:
+            return ("unknown", "the classes of the stored filters are not known")
+        for cls in classes:
+            f = self.filter_named(cls)
+            if f is None:
+                return ("unknown", f"no instance of {cls.rsplit('.', 1)[-1]} with a given identifier could be constructed")
+            k = self.reduce(elt, {bv: f})
+            eq = self.abstract_eq(new_key, k)
+            cname = cls.rsplit(".", 1)[-1]
+            if eq is False:
+                return ("bad", f"it compares `{show(new_key)[:60]}` (per supplied module m) with `{show(k)[:60]}` (per stored {cname} with identifier m), which are never equal: a name that is already assigned through a {cname} is not recognised as a duplicate")
+            if eq is None:
+                return ("unknown", f"whether `{show(new_key)[:60]}` equals `{show(k)[:60]}` (stored {cname} with the same identifier) could not be decided")
+        return ("ok", "")
 
     @staticmethod
     def _first_bv(comp: Term) -> Term:
@@ -569,6 +712,7 @@ def check_dup_guard(b: Builder, res: Result, r: Run, m: FuncInfo, e: Event, p: T
 def classify_dup(b: Builder, t: Term, pol: bool, p: Term, enc: Enc, pcf) -> tuple[str, str] | None:
     new = exist = None
     member = False  # the existing names are consulted by repeated membership tests (must be materialised)
+    tested = bv = None  # membership forms: the expression (over the element variable bv of the new side) that is looked up
     shape = t
     if not pol:
         core = strip_wrappers(t, ("list", "tuple", "sorted", "set", "frozenset"))
@@ -577,16 +721,19 @@ def classify_dup(b: Builder, t: Term, pol: bool, p: Term, enc: Enc, pcf) -> tupl
         elif core[0] == "binop" and core[1] == "BitAnd":
             new, exist = core[2], core[3]
         elif core[0] == "comp" and core[1] != "dict" and len(core[3]) == 1:
-            new, exist, member = _membership(core[3][0], core[2])
+            new, exist, member, tested = _membership(core[3][0])
+            bv = ("bv", core[4])
         elif core[0] == "any" and len(core[1]) == 1:
-            new, exist, member = _membership(core[1][0], None)
+            new, exist, member, tested = _membership(core[1][0])
+            bv = ("bv", core[2])
         elif core[0] == "call" and core[1] == "any" and len(core[2]) == 1 and core[2][0][0] == "comp" and len(core[2][0][3]) == 1:
             c = core[2][0]
             it, ifs = c[3][0]
+            bv = ("bv", c[4])
             if c[2][0] == "cmp" and c[2][1] == "In":
-                new, exist, member = _membership((it, ifs + (c[2],)), None)
+                new, exist, member, tested = _membership((it, ifs + (c[2],)))
             else:
-                new, exist, member = _membership((it, ifs), None)
+                new, exist, member, tested = _membership((it, ifs))
         else:
             return None
     else:
@@ -597,8 +744,10 @@ def classify_dup(b: Builder, t: Term, pol: bool, p: Term, enc: Enc, pcf) -> tupl
     if new is None or exist is None:
         return None
     # operands may be written in either order
+    swapped = False
     if b.all_identifiers(new) is not None and b.all_identifiers(exist) is None:
         new, exist = exist, new
+        swapped = True
         if member:
             # `[x for x in existing if x in new]`: the new names are the membership-tested side; a list / set of them is fine
             member = False
@@ -609,30 +758,43 @@ def classify_dup(b: Builder, t: Term, pol: bool, p: Term, enc: Enc, pcf) -> tupl
         return ("unknown", f"the duplicate check `{show(shape)[:120]}` consults `{show(exist)[:60]}`, which is not recognisably derived from the stored definitions")
     if not derived_part(new, p):
         return ("bad", f"the duplicate check `{show(shape)[:120]}` does not test the supplied modules")
+    # the key compared per supplied module m: the element itself, or what a comprehension over the normalised argument builds
     n = strip_wrappers(new, ("list", "tuple", "sorted", "set", "frozenset"))
-    if not normalised(n, p, enc, pcf):
+    if normalised(n, p, enc, pcf):
+        elem = b.M
+    elif n[0] == "comp" and n[1] != "dict" and len(n[3]) == 1 and not n[3][0][1] and normalised(strip_wrappers(n[3][0][0], ("list", "tuple", "sorted", "set", "frozenset", "iter")), p, enc, pcf):
+        elem = b.reduce(n[2], {("bv", n[4]): b.M})
+    else:
         why = "only a part of the supplied modules" if any(x[0] == "slice" for x in subterms(n)) else "not the normalised (list) form of the supplied modules"
         if n == p or any(x[0] == "slice" for x in subterms(n)) or n[0] in ("index",):
             return ("bad", f"the duplicate check tests `{show(n)[:60]}`: {why}")
         return ("unknown", f"the duplicate check tests `{show(n)[:60]}`, which is not recognised as the whole normalised argument")
     if info[0] == "partial":
         return ("bad", f"the duplicate check does not cover the modules of all layers: {info[1]}")
-    if member and not info[1]:
+    _all, materialised, elt, fbv = info
+    if swapped and tested is not None:
+        # `[f for f in <stored> if key(f) in <new>]`: the looked-up expression belongs to the stored side
+        elt, new_key = b.reduce(tested, {bv: elt}), elem
+    else:
+        new_key = elem if tested is None else b.reduce(tested, {bv: elem})
+    agree = b.key_agreement(new_key, elt, fbv)
+    if agree[0] == "bad":
+        return ("bad", f"the duplicate check `{show(shape)[:100]}` misses duplicates: {agree[1]}")
+    if agree[0] == "unknown":
+        return ("unknown", f"the duplicate check `{show(shape)[:100]}`: {agree[1]}")
+    if member and not materialised:
         return ("bad", f"duplicates are found by membership tests in `{show(exist)[:80]}`, a one-shot iterator that is exhausted by the first name that is not assigned yet")
-    if not member and not info[1] and t[0] == "binop":
+    if not member and not materialised and t[0] == "binop":
         return ("bad", f"`{show(exist)[:80]}` is a one-shot iterator, not a set")
     return ("ok", "every supplied module (normalised list form) is compared with the identifiers of all stored module filters before the store")
 
 
-def _membership(gen: tuple, elt: Term | None):
-    """`[x for x in NEW if x in EXIST]` -> (NEW, EXIST, True)."""
+def _membership(gen: tuple):
+    """`[.. for x in NEW if key(x) in EXIST]` -> (NEW, EXIST, True, key(x)); the membership test must be the only filter."""
     it, ifs = gen
-    for c in ifs:
-        if c[0] == "cmp" and c[1] == "In" and c[2][0] == "bv":
-            if elt is not None and elt != c[2]:
-                continue
-            return it, c[3], True
-    return None, None, False
+    if len(ifs) == 1 and ifs[0][0] == "cmp" and ifs[0][1] == "In":
+        return it, ifs[0][3], True, ifs[0][2]
+    return None, None, False, None
 
 
 def check_image(b: Builder, res: Result, r: Run, m: FuncInfo, e: Event, p: Term, enc: Enc) -> None:
